@@ -2,6 +2,7 @@
 //   rdims S:<axtype> S:<axkind> S:<shapekind> S:<kd> L:<shape> <axis: I:k | L:..>   index::remove_dims on a bare shape
 //   tsum  S:<axtype> S:<axkind> S:<kd> A:<arr> <axis>                                view::sum(int64 data) with a typed axis argument
 //   tred  S:<sum|prod> S:<src> S:<dtype> S:<kd> A:<arr> <axis: N | L:..> <init>      view::sum / prod with source element type and result dtype
+//   tini  S:<sum|prod|amax|amin|radd> S:<src> S:<initT> S:<int|list|none> A:<arr> <axis> I:<n>   initial of ANOTHER type than the element type
 //   tacc  S:<cumsum|cumprod|add> S:<src> S:<dtype> A:<arr> I:<axis>                  cumsum / cumprod / accumulate_add with a result dtype
 // axtype: i8 u8 i16 u16 i32 u32 i64 u64 (the axis argument's (element) type)   axkind: scalar | vec | arr
 // shapekind: vec | arr    kd: def | rt0 | rt1 | ct0 | ct1     src: u8 i8 i32     dtype: none i8 u8 i16 i32 i64 u64 f32 f64
@@ -11,6 +12,8 @@
 #include "nmtools/array/view/cumsum.hpp"
 #include "nmtools/array/view/cumprod.hpp"
 #include "nmtools/array/view/ufuncs/add.hpp"
+#include "nmtools/array/view/ufuncs/amax.hpp"
+#include "nmtools/array/view/ufuncs/amin.hpp"
 #include "show.hpp"
 #include <cstdint>
 
@@ -82,6 +85,18 @@ template <typename F> static std::string with_src_dtype(const std::string& src, 
     return "unsupported";
 }
 
+// a 0-dim *view* (axis=None, keepdims=False) is converted to its element type before printing (show.hpp would print a floating
+// 0-dim view through long long)
+template <typename V>
+static std::string showf(const V& v) {
+    if constexpr (meta::is_either_v<V>) {
+        using L = meta::get_either_left_t<V>; using R = meta::get_either_right_t<V>;
+        if (auto l = nm::get_if<L>(&v)) return showf(*l); else return showf(*nm::get_if<R>(&v));
+    } else if constexpr (meta::is_maybe_v<V>) { if (!nm::has_value(v)) return "nothing"; return showf(*v); }
+    else if constexpr (meta::is_num_v<V> && !std::is_arithmetic_v<V>) { using T = meta::get_element_type_t<V>; return "ok  ; " + num_str(static_cast<T>(v)); }
+    else return show(v);
+}
+
 static std::string handle(const Case& c) {
     if (c.op == "rdims") {
         const std::string t = c.args[0].raw.substr(2), akind = c.args[1].raw.substr(2), sk = c.args[2].raw.substr(2), kd = c.args[3].raw.substr(2);
@@ -133,6 +148,36 @@ static std::string handle(const Case& c) {
             if (init.kind == 'N') return go(vec_of<int>(ax.list), None);
             return go(vec_of<int>(ax.list), (ll)init.val);
         });
+    }
+    if (c.op == "tini") {
+        // tini S:<sum|prod|amax|amin|radd> S:<src> S:<initT> S:<int|list|none> A:<arr> <axis> I:<n>
+        //   an initial value of ANOTHER type than the element / result type: it is converted to the result type first and the fold runs there.
+        //   src f64: data x/4; floating initial: n/4.  axis form: int + default keepdims | list + run-time keepdims=true | None + default
+        const std::string fn = c.args[0].raw.substr(2), p = c.args[1].raw.substr(2) + ":" + c.args[2].raw.substr(2), af = c.args[3].raw.substr(2);
+        const Arg& A = c.args[4]; const Arg& ax = c.args[5]; const ll n = c.args[6].val;
+        auto run = [&](const auto& a, auto ini) -> std::string {
+            auto go = [&](const auto& axis, auto... kd) -> std::string {
+                if (fn == "sum") return showf(view::sum(a, axis, None, ini, kd...));
+                if (fn == "prod") return showf(view::prod(a, axis, None, ini, kd...));
+                if (fn == "amax") return showf(view::amax(a, axis, None, ini, kd...));
+                if (fn == "amin") return showf(view::amin(a, axis, None, ini, kd...));
+                if (fn == "radd") return showf(view::reduce(view::add_t<>{}, a, axis, None, ini, kd...));
+                return "unsupported";
+            };
+            if (af == "int") return go((int)ax.val);
+            if (af == "list") return go(vec_of<int>(ax.list), true);
+            if (af == "none") return go(None);
+            return "unsupported";
+        };
+        auto darr = [&]() { auto a = make_array<dyn_t<double>>(A); std::vector<size_t> shp(A.shape.begin(), A.shape.end()), idx(shp.size(), 0);
+            size_t tot = 1; for (auto e : shp) tot *= e;
+            for (size_t k = 0; k < tot; k++) { a(idx) = (double)A.list[k] / 4; for (int d = (int)shp.size() - 1; d >= 0; d--) { if (++idx[d] < shp[d]) break; idx[d] = 0; } }
+            return a; };
+        if (p == "f64:i32") return run(darr(), (int)n);
+        if (p == "f64:f32") return run(darr(), (float)n / 4);
+        if (p == "i64:i32") return run(make_array<dyn_t<int64_t>>(A), (int)n);
+        if (p == "i32:f64") return run(make_array<dyn_t<int32_t>>(A), (double)n);
+        return "unsupported";
     }
     if (c.op == "tacc") {
         const std::string fn = c.args[0].raw.substr(2), src = c.args[1].raw.substr(2), d = c.args[2].raw.substr(2);
